@@ -336,47 +336,48 @@ with_nocipher!(c23_t_nts_v5_n, 30, |c| {
 });
 
 // client session keys
-with_client!(c23_t_nts_v4_c, 7, |c| {
-    // 24-byte ciphertext = 8 bytes of plaintext (at most two fields) + tag; the bound of the
-    // plaintext field loop is the harness' global unwind bound, and every iteration beyond the
-    // real ones costs ~50 s of symbolic execution
-    let ok = nts4!(c, 16, 24, 0);
+with_client!(c23_t_nts_v4_c, 5, |c| {
+    // 20-byte ciphertext = 4 bytes of plaintext (one empty field, or garbage) + tag. The decrypted
+    // plaintext lives on the heap, where CBMC loses all constants, so its field loop runs to the
+    // harness' global unwind bound and every iteration costs ~1 min of symbolic execution: the
+    // bound is kept at 5 (>= the 4 draws of the oracle tape).
+    let ok = nts4!(c, 16, 20, 0);
     kani::cover!(ok == ACC, "decrypted, plaintext parsed");
     kani::cover!(ok == REJ, "decrypted, malformed plaintext");
     kani::cover!(ok == DEC, "decryption refused");
 });
-with_client!(c23_t_nts_v4_mac_c, 7, |c| {
+with_client!(c23_t_nts_v4_mac_c, 5, |c| {
     let mac = nts4!(c, 16, 20, 4);
     let empty = nts4!(c, 16, 16, 0);
     kani::cover!(mac == ACC, "with trailing MAC");
     kani::cover!(empty == ACC, "empty plaintext");
 });
-with_client!(c23_t_nts_v4_notag_c, 7, |c| {
+with_client!(c23_t_nts_v4_notag_c, 5, |c| {
     let short = nts4!(c, 16, 15, 0);
     assert!(short == DEC, "ciphertext shorter than a tag: never accepted");
     kani::cover!(short == DEC, "reached");
 });
-with_client!(c23_t_nts_v4_nonce_c, 7, |c| {
-    let odd = nts4!(c, 13, 24, 0);
-    let nonce0 = nts4!(c, 0, 24, 0);
+with_client!(c23_t_nts_v4_nonce_c, 5, |c| {
+    let odd = nts4!(c, 13, 20, 0);
+    let nonce0 = nts4!(c, 0, 20, 0);
     assert!(odd == DEC && nonce0 == DEC, "no 16-byte nonce: refused by the cipher model (see assumptions)");
     kani::cover!(odd == DEC, "reached");
 });
-with_client!(c23_t_nts_v4_huge_c, 7, |c| {
+with_client!(c23_t_nts_v4_huge_c, 5, |c| {
     let huge = nts4!(c, 0xFFFF, 0xFFFF, 0);
     assert!(huge == REJ, "length words pointing outside the field refused");
     kani::cover!(huge == REJ, "reached");
 });
-with_client!(c23_t_nts_v5_c, 7, |c| {
-    let ok = nts5!(c, 16, 24);
+with_client!(c23_t_nts_v5_c, 5, |c| {
+    let ok = nts5!(c, 16, 20);
     kani::cover!(ok == ACC, "decrypted, plaintext parsed");
     kani::cover!(ok == DEC, "decryption refused");
 });
-with_client!(c23_t_nts_v5_odd_c, 7, |c| {
+with_client!(c23_t_nts_v5_odd_c, 5, |c| {
     let odd = nts5!(c, 16, 21);
     kani::cover!(odd == ACC, "odd ciphertext length (5 bytes of plaintext)");
 });
-with_client!(c23_t_nts_v5_long_c, 7, |c| {
+with_client!(c23_t_nts_v5_long_c, 5, |c| {
     let long = nts5!(c, 16, 27);
     assert!(long == REJ, "ciphertext longer than the field refused");
     kani::cover!(long == REJ, "reached");
